@@ -7,6 +7,7 @@ CONSTANTS
   LP = 2
   LQ = 1
   LR = 0
+  Ext = {}
 SPECIFICATION PathsSpec
 INVARIANT DesignU
 INVARIANT DesignB
